@@ -361,6 +361,71 @@ def Stack.ofFile {α} (f : File α) : Stack :=
   let w := ((f.pages.head?.bind fun p => p.img.head?).map List.length).getD 0
   ⟨0, f.pages.length, 1, ⟨0, w, 0, h⟩⟩
 
+/-! ### 5. the `"Exposure time (ms)"` key: ns → float64 ms → ns -/
+
+/-- Unit in the last place of float64 at `x` (53-bit significand, subnormals below `2^-1022`). -/
+def ulpF64 (x : Rat) : Rat := pow2 (max (ilog2 x) (-1022) - 52)
+
+/-- One IEEE double operation on an exact result `x` inside the finite range: nearest multiple of the ulp, ties to
+    even (also the reading of a decimal literal and `np.int64 → float64`). -/
+def roundF64 (x : Rat) : Rat :=
+  if x = 0 then 0 else (roundHalfEven (x / ulpF64 x) : Rat) * ulpF64 x
+
+/-- The literal `1e-6` of `export_tiff`. -/
+def c1em6 : Rat := roundF64 (1 / 1000000)
+
+/-- `export_tiff`: one entry of `np.diff(np.vstack(ranges), axis=1).squeeze() * 1e-6` — the int64 difference is
+    converted to float64, then multiplied by the double `1e-6`. -/
+def exposureMs (e : Int) : Rat := roundF64 (roundF64 (e : Rat) * c1em6)
+
+/-- `exposure_times` of `export_tiff`: `vstack` → `(n, 2)`, `diff(axis=1)` → `(n, 1)`, `squeeze` → `(n,)` or `()`,
+    `atleast_1d` → `(n,)`: one double per range. -/
+def exposureTimesMs (ranges : List (Int × Int)) : List Rat := ranges.map fun r => exposureMs (r.2 - r.1)
+
+/-- `TiffFrame.exposure_timestamp_range`: `int(np.round(1e6 * json["Exposure time (ms)"]))` (`np.round` of a double
+    is round-half-even to an integral double). -/
+def exposureNs (x : Rat) : Int := roundHalfEven (roundF64 (1000000 * x))
+
+/-- Opening the written file again, through the float key: the stop of the exposure is
+    `start + int(round(1e6 * (ns * 1e-6)))`. -/
+def readBackF {α} (out : List (OutPage α)) : File α :=
+  ⟨out.map fun o => ⟨o.start, o.stop, o.start + exposureNs (exposureMs o.exposure), o.img⟩, false⟩
+
+/-! ### 6. `Kymo._tiff_timestamp_ranges` -/
+
+/-- `Kymo._tiff_timestamp_ranges`: `ts = np.array(line_timestamp_ranges(...))`, one frame `(np.min(ts), np.max(ts))`
+    over ALL starts and stops (`none`: NumPy raises `ValueError` on an empty array). -/
+def kymoRange (lines : List (Int × Int)) : Option (Int × Int) :=
+  match lines.flatMap fun r => [r.1, r.2] with
+  | [] => none
+  | x :: xs => some (xs.foldl (fun m y => if y < m then y else m) x, xs.foldl (fun m y => if m < y then y else m) x)
+
+/-! ### 7. typed selection programs -/
+
+/-- One selection step of the public API. -/
+inductive Op where
+  | slice (a b c : Option Int)          -- `stack[a:b:c]`
+  | index (i : Int)                     -- `stack[i]`
+  | crop (x0 x1 y0 y1 : Option Int)     -- `stack.crop_by_pixels(x0, x1, y0, y1)`
+  | tuple (items : List Item)           -- `stack[frames, rows, columns]`
+  | dataset (s0 s1 st : Int)            -- `ImageStack.from_dataset(src, name, s0, s1, st)` (private bookkeeping)
+deriving Repr, DecidableEq
+
+def Stack.applyOp (s : Stack) : Op → Except Err Stack
+  | .slice a b c => s.sliceFrames a b c
+  | .index i => s.index i
+  | .crop x0 x1 y0 y1 => s.cropPixels x0 x1 y0 y1
+  | .tuple items => s.getitemTuple items
+  | .dataset a b c => .ok { s with s0 := a, s1 := b, st := c }
+
+/-- A chain of selections; the first refusal ends it. -/
+def Stack.run : Stack → List Op → Except Err Stack
+  | s, [] => .ok s
+  | s, op :: rest =>
+    match s.applyOp op with
+    | .error e => .error e
+    | .ok s' => Stack.run s' rest
+
 /-! ### protocol -/
 open Verif.Proto
 
@@ -385,32 +450,27 @@ def item? (s : String) : Option Item :=
   `s,a,b,c` frame slice   `i,k` integer index   `c,x0,x1,y0,y1` `crop_by_pixels`
   `g,<item>,…` tuple index with items `k`, `a:b` or `a:b:c`
   `z,s0,s1,st` `ImageStack.from_dataset(src, name, s0, s1, st)` on the same pages and ROI. -/
-def step (s : Stack) (op : String) : Option (Except Err Stack) :=
+def op? (op : String) : Option Op :=
   match op.splitOn "," with
   | ["s", a, b, c] => do
     let a ← optInt? a; let b ← optInt? b; let c ← optInt? c
-    some (s.sliceFrames a b c)
+    some (.slice a b c)
   | ["i", k] => do
     let k ← int? k
-    some (s.index k)
+    some (.index k)
   | ["c", a, b, c, d] => do
     let a ← optInt? a; let b ← optInt? b; let c ← optInt? c; let d ← optInt? d
-    some (s.cropPixels a b c d)
+    some (.crop a b c d)
   | "g" :: items => do
     let items ← items.mapM item?
-    some (s.getitemTuple items)
+    some (.tuple items)
   | ["z", a, b, c] => do
     let a ← int? a; let b ← int? b; let c ← int? c
-    some (.ok { s with s0 := a, s1 := b, st := c })
+    some (.dataset a b c)
   | _ => none
 
-def runProg : Stack → List String → Option (Except Err Stack)
-  | s, [] => some (.ok s)
-  | s, op :: rest =>
-    match step s op with
-    | none => none
-    | some (.error e) => some (.error e)
-    | some (.ok s') => runProg s' rest
+def runProg (s : Stack) (prog : List String) : Option (Except Err Stack) :=
+  (prog.mapM op?).map s.run
 
 /-- The synthetic raw image of page `p`: pixel `(r, c)` carries the identifier `(p·h + r)·w + c`. -/
 def idImage (h w p : Nat) : List (List Int) :=
@@ -435,9 +495,13 @@ def showOuts (l : List (OutPage Int)) : String := "[" ++ ";".intercalate (l.map 
   `c18.decode [codes]`    `_get_page_timestamps`: `a:b` or the error name
   `c18.roundtrip a b`     write the tag for `(a, b)`, then read it: `a:b` or the error name
   `c18.legacy [s…] [e…]`  `_frame_timestamps_from_exposure_timestamps`
+  `c18.expms [e,…]`       the doubles `export_tiff` writes behind "Exposure time (ms)" for exposures of `e` ns (`p/q`)
+  `c18.expns [p/q,…]`     `int(np.round(1e6 * x))` for each double `x` read from that key
+  `c18.exprt [e,…]`       write the key for `e` ns, read it back: the ns the reader gets
+  `c18.kymorange [s…] [e…]`  `Kymo._tiff_timestamp_ranges` from the line ranges: `a:b` or `ValueError`
   `c18.export <h> <w> [starts] [stops] [expStops] <legacy T/F> <again T/F> op…`
         run the selection program on a fresh stack over these pages (raw pixels = identifiers), export;
-        with `again = T` the result is read back, opened as a fresh stack and exported a second time;
+        with `again = T` the result is read back (exposure through the float64 millisecond key), opened as a fresh stack and exported a second time;
         answer `[start:stop:exposure:HxW:id,id,…;…]` or the error name. -/
 def handle : List String → Option String
   | ["c18.cast", d, clip, img] => do
@@ -464,6 +528,21 @@ def handle : List String → Option String
     else match legacyRanges (s.zip e) with
       | some r => some (showRanges r)
       | none => some "IndexError"
+  | ["c18.expms", es] => do
+    let es ← intList? es
+    some (showRatList (es.map exposureMs))
+  | ["c18.expns", xs] => do
+    let xs ← ratList? xs
+    some (showIntList (xs.map exposureNs))
+  | ["c18.exprt", es] => do
+    let es ← intList? es
+    some (showIntList (es.map fun e => exposureNs (exposureMs e)))
+  | ["c18.kymorange", s, e] => do
+    let s ← intList? s; let e ← intList? e
+    if s.length ≠ e.length then none
+    else match kymoRange (s.zip e) with
+      | some r => some (toString r.1 ++ ":" ++ toString r.2)
+      | none => some "ValueError"
   | "c18.export" :: h :: w :: starts :: stops :: exps :: legacy :: again :: prog => do
     let h ← nat? h; let w ← nat? w
     let pages ← pages? h w starts stops exps
@@ -478,7 +557,7 @@ def handle : List String → Option String
       | .error e => some e.show
       | .ok out =>
         if again then
-          let f2 := readBack out
+          let f2 := readBackF out
           match exportPages (Stack.ofFile f2) f2 with
           | .error e => some e.show
           | .ok out2 => some (showOuts out2)
